@@ -91,8 +91,8 @@ fn run_case<K: Kit>(ctx: &Ctx, b: &mut Batch, kit: &K, h: &History) {
     if let Some((i, what)) = first_difference(&r1, &r2) {
         // which solve of the instance is the first to differ?
         let k = r1[..=i.min(r1.len() - 1)].iter().filter(|c| matches!(c.op, Op::Solve(_) | Op::Construct)).count();
-        let after_resetup = r1[..=i.min(r1.len() - 1)].iter().filter(|c| matches!(c.op, Op::Setup(_))).count() > 1;
-        let phase = if matches!(r1[i.min(r1.len() - 1)].op, Op::Setup(_)) {
+        let after_resetup = r1[..=i.min(r1.len() - 1)].iter().filter(|c| matches!(c.op, Op::Setup(_) | Op::SetupMixed(..))).count() > 1;
+        let phase = if matches!(r1[i.min(r1.len() - 1)].op, Op::Setup(_) | Op::SetupMixed(..)) {
             "setup"
         } else if k <= 1 {
             "first-planning-call"
